@@ -145,6 +145,50 @@ def random_worker(jobs):
     return res
 
 
+# ---- systematic exploration of the real code (bounded preemptions) -----------
+
+def _S(m, lane=1):
+    return {'op': 'send', 'm': m, 'lane': lane}
+
+
+_P = {'op': 'poll', 'm': 0, 'lane': 0}
+_R = {'op': 'recv', 'm': 0, 'lane': 0}
+_I = {'op': 'iterp', 'm': 0, 'lane': 0}
+EXPLORE = {
+    # three messages from one sender through a MultiPort, two receivers
+    'multi3': ('multi', [[_S(1), _S(2), _S(3)], [_P], [_P, _P]]),
+    'multi2l': ('multi', [[_S(1), _S(2)], [_S(3, 2)], [_I], [_P]]),
+    'multirecv': ('multi', [[_S(1), _S(2)], [_R], [_R]]),
+    'ioport2': ('ioport', [[_S(1), _S(2)], [_P, _P], [_P]]),
+    'pqueue2': ('pqueue', [[_S(1), _S(2)], [_P], [_P, _P]]),
+    'device2': ('device', [[_S(1), _S(2)], [_S(3)], [_P, _P], [_I]]),
+}
+NSHARD = 16
+
+
+def explore_worker(jobs):
+    res = {'n': 0, 'viol': [], 'samples': [], 'counts': {}, 'hist': {}}
+    for name, k, shard, limit in jobs:
+        kind, prog = EXPLORE[name]
+
+        def judge(run, sched):
+            case = {'kind': kind, 'initq': [], 'prog': prog, 'schedule': sched, 'scenario': name,
+                    'explored': True}
+            dv = portrun.direct_verdict(run)
+            if dv and len(res['viol']) < 10:
+                res['viol'].append(('ports/%s/%s' % (dv[0], kind), case,
+                                    dv[1] + ' (explored schedule of %s)' % name))
+            hk = history_key(run['events'])
+            if hk not in res['hist']:
+                res['hist'][hk] = case
+        n, complete = portrun.explore(kind, [], prog, k, limit=limit, judge=judge, shard=(shard, NSHARD))
+        res['n'] += n
+        res['counts']['explored_' + name] = n
+        if not complete:
+            res['counts']['explorations_cut_at_limit'] = 1
+    return res
+
+
 class Collect(core.ParallelReplay):
     def __init__(self, *a, **k):
         core.ParallelReplay.__init__(self, *a, **k)
@@ -198,6 +242,9 @@ def replay(case):
         prog = random_program(rng, case['kind'])
         run = portrun.run_program(case['kind'], [], prog, rng=rng, policy=case['policy'],
                                   line_level=case.get('line_level', False))
+    elif case.get('explored'):
+        run = portrun.run_program(case['kind'], case['initq'], case['prog'], schedule=case['schedule'],
+                                  rng=random.Random(0), policy='stay', record=True)
     else:
         run = portrun.run_program(case['kind'], case['initq'], case['prog'], schedule=case['schedule'])
     dv = portrun.direct_verdict(run)
@@ -249,7 +296,17 @@ def run(ctx):
     col2 = Collect(ctx, random_worker, batch_size=1)
     col2.map(list(core.chunks(jobs, 50)))
     validate_histories(ctx, col2.hist, 'PortTrace: histories of seeded random/PCT schedules')
-    ctx.constants = {'scenarios': scen, 'random_programs': n, 'statement_granularity_programs': nl}
+    # every schedule with at most K preemptions of a few programs on the real ports,
+    # explored by re-execution (the implementation itself is the transition system)
+    plan = ([('multi3', 3), ('multi2l', 2), ('multirecv', 2), ('ioport2', 3), ('pqueue2', 3), ('device2', 2)]
+            if thorough else
+            [('multi3', 2), ('multi2l', 1), ('multirecv', 1), ('ioport2', 2), ('pqueue2', 2), ('device2', 1)])
+    col3 = Collect(ctx, explore_worker, batch_size=1)
+    col3.map([[(name, k, sh, 60000 if thorough else 3000)] for name, k in plan for sh in range(NSHARD)])
+    ctx.note('explored_schedules', col3.n)
+    validate_histories(ctx, col3.hist, 'PortTrace: histories of explored schedules (bounded preemptions)')
+    ctx.constants = {'scenarios': scen, 'random_programs': n, 'statement_granularity_programs': nl,
+                     'explored': plan}
     ctx.exhaustive = True
     ctx.assumptions += [
         'the TLC-enumerated schedules switch threads at shared-state accesses (lock, deque, wire, sleep); statement-granularity switching (sys.settrace) is sampled with seeded schedules, not enumerated',
